@@ -5,6 +5,7 @@ consuming entry points, ledger of what was really encrypted, and the authenticit
 from __future__ import annotations
 
 import copy
+import zlib
 import json
 import warnings
 
@@ -202,8 +203,15 @@ def deliver(entry: str, ser, keyarg, sender_arg=None, reg=None, any_recipient: b
     from joserfc import jwe, jwt
     ensure_drafts_registered()
     r = Result(entry)
+    algorithms = None
     if reg is None:
-        reg = registry(any_recipient)
+        if not any_recipient and zlib.crc32(repr(ser).encode()) % 4 == 0:
+            # every fourth delivery (a pure function of the token) names its algorithms with both options at once: a registry
+            # configured for something else (lenient header check) plus the allow-list as a list
+            from joserfc.jwe import JWERegistry
+            reg, algorithms = JWERegistry(strict_check_header=False), list(ALLOW_ALL)
+        else:
+            reg = registry(any_recipient)
     if isinstance(ser, dict):
         ser = copy.deepcopy(ser)
     if COMPANION is not None and isinstance(ser, str):
@@ -212,11 +220,11 @@ def deliver(entry: str, ser, keyarg, sender_arg=None, reg=None, any_recipient: b
         with warnings.catch_warnings():
             warnings.simplefilter("ignore")
             if entry == "decrypt_compact":
-                obj = jwe.decrypt_compact(ser, keyarg, registry=reg, sender_key=sender_arg)
+                obj = jwe.decrypt_compact(ser, keyarg, algorithms=algorithms, registry=reg, sender_key=sender_arg)
             elif entry == "decrypt_json":
-                obj = jwe.decrypt_json(ser, keyarg, registry=reg, sender_key=sender_arg)
+                obj = jwe.decrypt_json(ser, keyarg, algorithms=algorithms, registry=reg, sender_key=sender_arg)
             elif entry == "jwt.decode":
-                tok = jwt.decode(ser, keyarg, registry=reg)
+                tok = jwt.decode(ser, keyarg, algorithms=algorithms, registry=reg)
                 r.accepted = True
                 r.obj = tok
                 r.protected = tok.header
